@@ -266,7 +266,12 @@ def _degenerate():
     chg = "zero volume\n 1.0\n 1.0 0.0 0.0\n 2.0 0.0 0.0\n 0.0 0.0 1.0\n H\n 1\nDirect\n 0.0 0.0 0.0\n\n" + grid
     chg0 = "zero scale\n 0.0\n 1.0 0.0 0.0\n 0.0 1.0 0.0\n 0.0 0.0 1.0\n H\n 1\nDirect\n 0.0 0.0 0.0\n\n" + grid
     xyz = "1\nhuge\nH 1e308 0.0 0.0\n"
-    return {"CHGCAR.zerovol": chg, "CHGCAR.zeroscale": chg0, "huge.xyz": xyz}
+    # optional parts left out (a reader may not fill them from whatever memory earlier calls left behind)
+    gro = ("positions only, t= 0.5\n    3\n    1WATER  OW1    1   0.126   1.624   1.679\n    1WATER  HW2    2   0.190   1.661   1.747\n"
+           "    1WATER  HW3    3   0.177   1.568   1.613\n   1.82060   1.82060   1.82060\n")
+    gro40 = "forty atoms without velocities\n   40\n" + "".join(
+        f"{1 + k // 3:5d}WATER  OW1{k + 1:5d}{0.1 * k:8.3f}{0.05 * k:8.3f}{1.0:8.3f}\n" for k in range(40)) + "   3.0 3.0 3.0\n"
+    return {"CHGCAR.zerovol": chg, "CHGCAR.zeroscale": chg0, "huge.xyz": xyz, "novel.gro": gro, "novel40.gro": gro40}
 
 
 def _procstate():
